@@ -26,9 +26,6 @@ class C20(core.Check):
         'the float64 model and with a textbook formula at rel 1e-9 + abs 1e-12',
         'category indices above 2^24 would be rounded by XGBoost\'s cast to float32 (outside the domain: indices are '
         'smaller than the number of categories)',
-        'OBSERVATION (reported, not a verdict): a ZERO-row frame with an embedding block makes all three adapters raise '
-        'RuntimeError from values.view(0, -1); the model records this behaviour, the theorem rejects_empty_frame '
-        'excludes that input class, and the evidence counts it under observed:zero-row-embedding-raises',
         'tune() itself (Optuna search) and the fitted models are outside the model: the guard state machine takes the '
         'outcome of the subclass hooks _tune/_load as an input',
     )
@@ -143,8 +140,6 @@ class C20(core.Check):
         if kind == 'convert':
             fr, lib = case['frame'], case['lib']
             has = any(fr[k] is not None for k in ('cat', 'num', 'emb'))
-            if fr['R'] == 0 and fr['emb'] is not None:
-                return None          # observation (see partial_notes): outside the claimed domain
             if not has:
                 if real != 'raises':
                     return core.Violation(f'convert/{lib}/empty-frame-accepted',
@@ -240,7 +235,7 @@ class C20(core.Check):
             if fr['cat'] is not None and fr['R'] > 0 and not any(-1 in row for row in fr['cat']):
                 labs.append('no-missing-category')
             if fr['R'] == 0 and fr['emb'] is not None:
-                labs.append('observed:zero-row-embedding-' + ('raises' if real == 'raises' else 'ok'))
+                labs.append('zero-row-with-embedding')
         elif k == 'metric':
             labs += [f'metric:{case["task"]}/{case["metric"]}', f'n:{len(case["target"])}',
                      'metric:raises' if real == 'raises' else 'metric:ok']
